@@ -10,6 +10,10 @@
   every insertion order — no bound anywhere.
 -/
 import ALV.Lemmas.C07Laurent
+import ALV.Lemmas.C07Eval
+import ALV.Lemmas.C07Calc
+import ALV.Lemmas.C07Lagrange
+import ALV.Lemmas.C07Hash
 import ALV.Common.Audit
 
 set_option linter.unusedSectionVars false
@@ -136,10 +140,175 @@ theorem pow_succ {p : MPoly K} (hp : WF p) (n : ℕ) :
   rw [this, eq_iff (wf_pow hp _) (wf_mul _ _), toLaurent_pow, toLaurent_mul, toLaurent_pow,
     _root_.pow_succ]
 
-/-! ## 5. comparison -/
+/-! ## 2. evaluation, composition -/
+
+/-- the spec's `Σ c·v^k` (`Spec.sEval`) is the list sum used in the lemmas -/
+theorem sEval_eq (p : MPoly K) (v : K) : sEval p v = ev p v := by
+  unfold sEval ev sumL
+  induction p with
+  | nil => rfl
+  | cons a t ih =>
+    simp only [List.map_cons, List.foldr_cons, List.sum_cons]
+    rw [ih, powInt_eq]
+
+/-- **C07.4a** every evaluation scheme of `__call__` (Horner-like with merged steps, the general
+sum, "auto") computes `Σ c·v^k` — for `v ≠ 0` on any Laurent polynomial, and at `v = 0` through the
+`x = 0` shortcut (Lean's `0^k = 0` for `k < 0` matches the shortcut; see `call_zero`). -/
+theorem call_eq_sum {p : MPoly K} {v : K} (hv : v ≠ 0 ∨ WF p) (h : Horner) :
+    call p v h = sEval p v := by
+  rw [sEval_eq]
+  exact call_eq_ev (hv.imp id (fun h => h.1)) h
+
+/-- **C07.4b** evaluation does not depend on the scheme — unconditionally. -/
+theorem call_scheme_independent (p : MPoly K) (v : K) (h h' : Horner) : call p v h = call p v h' := by
+  by_cases hv : v = 0
+  · subst hv; rw [call_zero, call_zero]
+  · rw [call_eq_ev (Or.inl hv), call_eq_ev (Or.inl hv)]
+
+/-- the `x = 0` shortcut returns the constant coefficient -/
+theorem call_zero (p : MPoly K) (h : Horner) : call p 0 h = getD p 0 := ALV.C07.call_zero p h
+
+/-- **C07.4c** evaluation is additive — at every point, every scheme. -/
+theorem call_add {p q : MPoly K} (hp : WF p) (hq : WF q) (v : K) (h : Horner) :
+    call (add p q) v h = call p v h + call q v h := by
+  by_cases hv : v = 0
+  · subst hv; simp only [ALV.C07.call_zero, getD_add hp.1 hq.1]
+  · simp only [call_eq_ev (Or.inl hv), ev_add hp.1 hq.1]
+
+/-- **C07.4d** evaluation is multiplicative: at `v ≠ 0` for Laurent polynomials, at every `v`
+(the `x = 0` shortcut included) for polynomials. -/
+theorem call_mul {p q : MPoly K} (hp : WF p) (hq : WF q) {v : K}
+    (hv : v ≠ 0 ∨ (IsPoly p ∧ IsPoly q)) (h : Horner) :
+    call (mul p q) v h = call p v h * call q v h := by
+  by_cases h0 : v = 0
+  · subst h0
+    rcases hv with hv | hv
+    · exact absurd rfl hv
+    · simp only [ALV.C07.call_zero, getD_mul_zero hv.1 hv.2 hp.1 hq.1]
+  · simp only [call_eq_ev (Or.inl h0), ev_mul_of_ne_zero p q h0]
+
+/-- **C07.4e** `(p ** n)(v) = p(v) ^ n`. -/
+theorem call_pow {p : MPoly K} (hp : WF p) (n : ℕ) {v : K} (hv : v ≠ 0 ∨ IsPoly p) (h : Horner) :
+    call (pow p (n : ℤ)) v h = call p v h ^ n := by
+  by_cases h0 : v = 0
+  · subst h0
+    rcases hv with hv | hv
+    · exact absurd rfl hv
+    · simp only [ALV.C07.call_zero, getD_pow_zero hv hp]
+  · simp only [call_eq_ev (Or.inl h0), ev_pow_of_ne_zero p n h0]
+
+theorem call_const_X (c v : K) (h : Horner) : call (ofScalar c) v h = c ∧ call (X : MPoly K) v h = v := by
+  constructor
+  · rw [call_eq_ev (Or.inr (wf_ofScalar c).1), ev_ofScalar]
+  · rw [call_eq_ev (Or.inr wf_X.1), ev_X]
+
+/-- **C07.4f** `p(q)` is substitution in the Laurent ring: `Σ c_k · q^k` (`p` a polynomial). -/
+theorem toLaurent_compose {p : MPoly K} (hp : IsPoly p) (q : MPoly K) :
+    toLaurent (compose p q) = (p.map fun kc => C kc.2 * toLaurent q ^ kc.1.toNat).sum :=
+  toLaurent_compose_poly hp q
+
+/-- **C07.4g** composition commutes with evaluation: `p(q)(v) = p(q(v))`. -/
+theorem call_compose_partial {p : MPoly K} (hp : IsPoly p) (hpw : WF p) (q : MPoly K) {v : K} (hv : v ≠ 0)
+    (h h' h'' : Horner) : call (compose p q) v h = call p (call q v h') h'' := by
+  rw [call_eq_ev (Or.inl hv), call_eq_ev (Or.inl hv), call_eq_ev (Or.inr hpw.1),
+    ev_compose_of_ne_zero hp q hv]
+
+-- PENDING: the same at `v = 0` for a polynomial `q` (the tie covers it: law `comp_eval`)
+def call_compose_at_zero : Prop :=
+  ∀ (p q : MPoly K), IsPoly p → WF p → IsPoly q → WF q → ∀ h h' h'' : Horner,
+    call (compose p q) 0 h = call p (call q 0 h') h''
+
+/-! ## 3. calculus -/
+
+/-- `D` is the formal derivative: `(D f)_k = (k+1)·f_{k+1}` -/
+theorem coeff_D (f : K[T;T⁻¹]) (k : ℤ) : (D f).coeff k = ((k + 1 : ℤ) : K) * f.coeff (k + 1) :=
+  ALV.C07.coeff_D f k
+
+/-- **C07.5a** `p.diff(n)` is the n-th formal derivative of the denoted Laurent polynomial. -/
+theorem toLaurent_diff {p : MPoly K} (hp : WF p) (n : ℕ) : toLaurent (diff p n) = D^[n] (toLaurent p) :=
+  ALV.C07.toLaurent_diff hp.1 n
+
+/-- **C07.5b** `diff` is linear. -/
+theorem diff_add {p q : MPoly K} (hp : WF p) (hq : WF q) :
+    eq (diff (add p q)) (add (diff p) (diff q)) = true := by
+  rw [eq_iff (wf_diff (wf_add _ _) 1) (wf_add _ _), toLaurent_diff (wf_add _ _),
+    toLaurent_add (wf_diff hp 1) (wf_diff hq 1), toLaurent_diff hp, toLaurent_diff hq,
+    toLaurent_add hp hq]
+  simp [D_add]
+
+theorem diff_smul {p : MPoly K} (hp : WF p) (c : K) :
+    eq (diff (mul (ofScalar c) p)) (mul (ofScalar c) (diff p)) = true := by
+  rw [eq_iff (wf_diff (wf_mul _ _) 1) (wf_mul _ _), toLaurent_diff (wf_mul _ _), toLaurent_mul,
+    toLaurent_mul, toLaurent_diff hp, toLaurent_ofScalar]
+  simp [D_mul, D_C]
+
+/-- **C07.5c** the product rule. -/
+theorem diff_mul {p q : MPoly K} (hp : WF p) (hq : WF q) :
+    eq (diff (mul p q)) (add (mul (diff p) q) (mul p (diff q))) = true := by
+  rw [eq_iff (wf_diff (wf_mul _ _) 1) (wf_add _ _), toLaurent_diff (wf_mul _ _), toLaurent_mul,
+    toLaurent_add (wf_mul _ _) (wf_mul _ _), toLaurent_mul, toLaurent_mul, toLaurent_diff hp,
+    toLaurent_diff hq]
+  simp [D_mul]
+
+/-- **C07.5d** `diff` undoes `integrate` (which exists iff there is no power −1). -/
+theorem diff_integrate [CharZero K] {p ip : MPoly K} (hp : WF p) (h : integrate p = .ok ip) :
+    eq (diff ip) p = true := by
+  rw [eq_iff (wf_diff (wf_integrate h) 1) hp]
+  exact toLaurent_diff_integrate hp.1 h
+
+theorem integrate_refuses_iff (p : MPoly K) : integrate p = .error .value ↔ (-1 : ℤ) ∈ keys p :=
+  integrate_error_iff p
+
+/-! ## 4. Lagrange interpolation -/
+
+/-- **C07.6a** `lagrange.func(pairs)` passes through its points: distinct abscissae, at least two
+points (the code as it stands). -/
+theorem lagrange_func_interp {pairs : List (K × K)} (hd : (pairs.map (·.1)).Nodup)
+    (h2 : 2 ≤ pairs.length) {xi yi : K} (hm : (xi, yi) ∈ pairs) :
+    lagrangeFunc pairs xi = .ok yi := by
+  have hne : pairs ≠ [] := by intro e; subst e; simp at h2
+  rw [lagrangeFunc_eq_lagSum false xi hne (Or.inr ⟨hd, h2⟩), lagSum_at_node hd hm]
+
+/-- **C07.6b** with the repair proposed for D14 (`reduce(operator.mul, args, 1)`) the same holds
+for every non-empty point set, a single point included. -/
+theorem lagrange_func_fixed_interp {pairs : List (K × K)} (hd : (pairs.map (·.1)).Nodup)
+    {xi yi : K} (hm : (xi, yi) ∈ pairs) : lagrangeFunc pairs xi true = .ok yi := by
+  have hne : pairs ≠ [] := by intro e; subst e; simp at hm
+  rw [lagrangeFunc_eq_lagSum true xi hne (Or.inl rfl), lagSum_at_node hd hm]
+
+/-- **C07.6c** the repair changes nothing for two or more points (any evaluation point). -/
+theorem lagrange_fixed_eq {pairs : List (K × K)} (hd : (pairs.map (·.1)).Nodup)
+    (h2 : 2 ≤ pairs.length) (v : K) : lagrangeFunc pairs v true = lagrangeFunc pairs v false := by
+  have hne : pairs ≠ [] := by intro e; subst e; simp at h2
+  rw [lagrangeFunc_eq_lagSum true v hne (Or.inl rfl),
+    lagrangeFunc_eq_lagSum false v hne (Or.inr ⟨hd, h2⟩)]
+
+/-- **D14** (defect of the code as it stands, reproduced by the model): a single interpolation
+point makes the product empty and `reduce` raises TypeError — for the number and the Poly variant. -/
+theorem lagrange_single_point_raises (x y v : K) :
+    lagrangeFunc [(x, y)] v = .error .type ∧ lagrangePoly [(x, y)] = .error .type :=
+  ⟨lagrangeGen_single_point _ _ _ _ _, lagrangeGen_single_point _ _ _ _ _⟩
+
+-- PENDING: `lagrange.poly` passes through its points (tie: entry "lagrange", observable poly.at)
+def lagrange_poly_interp : Prop :=
+  ∀ (pairs : List (K × K)), (pairs.map (·.1)).Nodup → 2 ≤ pairs.length →
+    ∀ xi yi, (xi, yi) ∈ pairs → ∀ h : Horner,
+      (lagrangePoly pairs).map (fun p => call p xi h) = .ok yi
+
+/-! ## 5. comparison and hashing -/
 
 /-- `p != q` is the negation of `p == q` -/
 theorem ne_eq_not_eq (p q : MPoly K) : ne p q = !eq p q := rfl
+
+/-- **C07.7** `p == q` implies equal hashes: `hash` is a function of the set of items
+(`hashKey` = its canonical representative), and equal Polys hold the same set; conversely the key
+separates unequal Polys. -/
+theorem eq_hash {p q : MPoly K} (hp : WF p) (hq : WF q) : eq p q = true ↔ hashKey p = hashKey q :=
+  (hashKey_eq_iff hp.1 hq.1).symm
+
+/-- the hash key does not depend on the insertion order -/
+theorem hashKey_perm {p q : MPoly K} (hp : WF p) (h : p.Perm q) : hashKey p = hashKey q :=
+  hashKey_eq_of_perm hp.1 h
 
 /-! ## non-vacuity -/
 
